@@ -8,6 +8,13 @@ import sys
 
 ROOT = os.path.dirname(os.path.dirname(os.path.abspath(__file__)))
 CFG = json.load(open(os.path.join(ROOT, "tools", "groups.json")))
+CFG.setdefault("groups", {})
+CFG.setdefault("checks", {})
+import glob
+for _f in sorted(glob.glob(os.path.join(ROOT, "tools", "groups.d", "*.json"))):
+    _c = json.load(open(_f))
+    CFG["groups"].update(_c.get("groups", {}))
+    CFG["checks"].update(_c.get("checks", {}))
 REPO = os.environ.get("VERIF_REPO", "/repo")
 
 
@@ -98,6 +105,9 @@ def main():
     gname = CFG["checks"][cid]["group"]
     exe = build_group(gname)
     os.makedirs(os.path.join(ROOT, "evidence"), exist_ok=True)
+    if REPO != "/repo":
+        os.environ["VERIF_OUT"] = os.path.join(build_dir(), "out")
+        os.makedirs(os.environ["VERIF_OUT"], exist_ok=True)
     os.execv(exe, [exe, cid] + a[1:])
 
 
